@@ -4,7 +4,7 @@ SPEC = {
     "translators": ["gen_fmtrules"],
     "bins": ["c15"],
     "model_targets": ["Fmt/FmtCheck.vo", "Gen/FmtRules.vo", "Fmt/Pipeline.vo", "Fmt/Stages.vo"],
-    "proof_targets": ["Fmt/ProcessorProofs.vo", "Fmt/BubbleProofs.vo", "Fmt/FmtRulesProofs.vo", "Fmt/StagesProofs.vo", "Fmt/PipelineProofs.vo"],
+    "proof_targets": ["Fmt/ProcessorProofs.vo", "Fmt/BubbleProofs.vo", "Fmt/FmtRulesProofs.vo", "Fmt/StagesProofs.vo", "Fmt/PipelineProofs.vo", "Fmt/YrFmtProofs.vo"],
     "generated_obligations": ["safe_stages_b Gen.FmtRules.stages = true", "forallb bubble_safe_b Gen.FmtRules.bubbles = true", "ok_pipeline false Gen.FmtRules.pipeline = true"],
     "assumptions": [
         "proved for the Processor engine and the Bubble stage as modelled in Fmt/Processor.v and Fmt/Bubble.v (tied to the code by differential runs of the real engine through the cfg(yara_x_verif) hook fmt/src/verif_fmt.rs); rule conditions are arbitrary functions of the context that entail the conjuncts extracted by the translator",
@@ -14,16 +14,24 @@ SPEC = {
         "input tab sizes 1, 2, 4, 8 (a tab size of 0 is accepted by the API but makes the formatter's own tab-indented output unreadable to it; not counted)",
     ],
     "trusted_base": ["Gen/FmtCats.v, Gen/FmtRules.v: token categories, per-rule action and drop guards of every Processor stage, Bubble classes; regenerated from fmt/src/tokens/mod.rs, fmt/src/processor/mod.rs, fmt/src/lib.rs",
-                     "fmt/src/verif_fmt.rs (hook): data view of tokens, Processor, Bubble and the five hand-written stages"],
+                     "fmt/src/verif_fmt.rs (hook): data view of tokens, Processor, Bubble and the five hand-written stages",
+                     "`yr` built from /repo/cli into .cache/target-cli (shared with C20), when it builds in time"],
 }
 
 RULE = ("CFmt: sources built from lexeme lists (imports, includes, 1-4 rules with tags, meta, text/hex/regexp patterns with modifiers, "
         "conditions of depth 1-5 incl. for/of/with/at/in, field access, string operators) joined by 5 spacing styles (tidy, messy, "
-        "heavily commented with //, /* */ and multi-line comments in every gap, one-line, CRLF+tabs), non-ASCII in comments and literals; "
+        "heavily commented with //, /* */ and multi-line comments in every gap, one-line, CRLF+tabs, Unicode spaces), non-ASCII in comments "
+        "and literals; 1 in 14 sources has tail comments continued by aligned comment lines with tab/space indentation, formatted with the "
+        "matching tab size and mostly Indentation::Tabs; "
         "20% token-level mutations (delete/dup/swap/garbage/truncate), 10% byte-level mutations incl. invalid UTF-8; each under 2 rows of a "
         "pairwise covering array over the 7 boolean options x 6 indentations x 4 input tab sizes (+ random rows); checked per case: no "
         "panic/hang, significant tokens of output = input, modified flag = (output != input), second pass changes nothing, input and output compile alike (same error codes, or same verdicts and matches on 3 buffers; every third case in the quick tier). "
-        "CStage: the real CommentProcessor (5 tab sizes) / FormatHexPatterns / Align / AddIndentation (5 settings) / RemoveTrailingSpaces vs "
+        "CYr: the real `yr fmt` (built from /repo/cli) with a generated configuration file and -t, in place and --check, 1-3 files per "
+        "invocation (already formatted; output shorter than the input: deep indentation, trailing spaces, blank lines; longer; aligned "
+        "comments; invalid UTF-8), against the model of cli/src/commands/fmt.rs: each file afterwards = the library's output iff modified, "
+        "else untouched (modification time), exit status. "
+        "CStage: the real CommentProcessor (5 tab sizes; half of the streams directed at its column bookkeeping: tab/space indentation, code, "
+        "a comment, follow-up comments placed in the same column counting tabs as tab_size / as 1 / off by one) / FormatHexPatterns / Align / AddIndentation (5 settings) / RemoveTrailingSpaces vs "
         "Fmt/Stages.v token for token, on real token streams (raw, or after the real comment and whitespace-dropping stages) with control "
         "tokens, spaces and line breaks sprinkled in (alignment blocks incl. unbalanced/nested/empty ones). "
         "CProc/CBubble/CCats: the real Processor/Bubble/Token::category (hook) vs the Coq model on real token streams of small sources with "
@@ -32,17 +40,27 @@ RULE = ("CFmt: sources built from lexeme lists (imports, includes, 1-4 rules wit
 
 
 def classify(case):
+    if case.get("kind") == "yr-fmt":
+        return "C15:" + case.get("class", "yr-fmt")
     if case.get("kind") != "fmt":
         return "C15:model-vs-implementation:" + str(case.get("kind"))
     return "C15:" + (case.get("class") or "unclassified")
 
 
 def run_k(run, tier, seed, drv):
+    from checks.C20 import build_yr
+    yr, yrc, yout, ydt = build_yr(drv, 400 if tier == "quick" else 2400)   # seconds when the cache is warm
     if tier == "quick":
         args = ["--seed", seed, "--n", 1200, "--n-proc", 400, "--n-stage", 400, "--opts", 2, "--behaviour-every", 3]
     else:
         args = ["--seed", seed, "--n", 24000, "--n-proc", 5000, "--n-stage", 6000, "--opts", 4]
-    info = standard_k(run, drv, "C15", "c15", args, "K_C15_processor_bubble_stages_categories", classify, max_report=60)
+    if yr:
+        args += ["--yr", yr, "--n-yr", 25 if tier == "quick" else 400]
+    info = standard_k(run, drv, "C15", "c15", args, "K_C15_processor_bubble_stages_categories_yr_fmt", classify, max_report=80)
+    if not yr:
+        run.notes.append({"yr_not_built": f"`cargo build -p yara-x-cli` did not finish (rc={yrc}, {ydt:.0f}s): `yr fmt` was not compared with the formatter in this run; {yout[-300:]}"})
+        if tier != "quick":
+            info["broken"].append(("K_C15_yr_fmt", f"the `yr` binary could not be built from /repo/cli (rc={yrc}): {yout[-400:]}"))
     info["rule"] = RULE
     return info
 
